@@ -334,8 +334,14 @@ def splice_fn(it_spec, item, contract, unit, em, extraction, active=None, featur
         sig = sig[:m.start()] + "-> (%s: %s)\n" % (ret, m.group(1).strip())
     if it_spec.get("sig_prefix"):
         sig = it_spec["sig_prefix"] + " " + sig.lstrip()
+    # ---- R18: `mut self` (by value) is not accepted by Verus: take it as `self` and rebind it at function entry
+    mut_self = bool(re.search(r"\(\s*mut\s+self\b", sig))
+    if mut_self:
+        sig = re.sub(r"\(\s*mut\s+self\b", "(self", sig)
     # ---- body
     body = src_body if not it_spec.get("assumed") else "{ unimplemented!() }"
+    if mut_self and not it_spec.get("assumed"):
+        body = "{\n let mut vself = self;\n" + lower.subst_ident(body.strip()[1:-1], "self", "vself") + "\n}"
     body = apply_cfg(body, features)
     body = drop_use_stmts(body)
     log = []
@@ -395,16 +401,16 @@ def splice_fn(it_spec, item, contract, unit, em, extraction, active=None, featur
                 i += 1
             if i >= len(body):
                 raise Unsupported("lost anchor: %s @after /%s/ (no statement end)" % (key, m.group(1)))
-            body = body[:i + 1] + "\n" + "\n".join("/*@hint after*/ " + c.text for c in hint) + "\n" + body[i + 1:]
+            body = body[:i + 1] + "\n" + "\n".join("/*@hint after|%s*/ " % c.name() + c.text for c in hint) + "\n" + body[i + 1:]
     body = splice_loops(body, contract, key, active)
     ex = select_hints(contract.get("exit"), active) if contract is not None else []
     if ex:
         i = body.rstrip().rfind("}")
-        body = body[:i] + "\n" + "\n".join("/*@hint exit*/ " + c.text for c in ex) + "\n" + body[i:]
+        body = body[:i] + "\n" + "\n".join("/*@hint exit|%s*/ " % c.name() + c.text for c in ex) + "\n" + body[i:]
     # entry
     entry = select_hints(contract.get("entry"), active) if contract is not None else []
     if entry:
-        etxt = "\n".join("/*@entry*/ " + c.text for c in entry)
+        etxt = "\n".join("/*@hint entry|%s*/ " % c.name() + c.text for c in entry)
         body = "{\n" + etxt + "\n" + body.lstrip()[1:]
     emit_body(body, key, em)
     extraction.append(dict(key=key, file=os.path.relpath(item.path, REPO), lines=[a, b], sha256=h, inactive=bool(it_spec.get("_inactive")),
@@ -474,7 +480,7 @@ def splice_loops(body, contract, key, active=None):
                              ("loopstart", ob + 1, "loopstart")):
             le = select_hints(contract.get("%s %s" % (sec, lk)) + contract.get("%s? %s" % (sec, lk)), active)
             if le:
-                ins.append((off, "\n" + "\n".join("/*@hint %s:%s*/ %s" % (nm, lk, c.text) for c in le) + "\n"))
+                ins.append((off, "\n" + "\n".join("/*@hint %s:%s|%s*/ %s" % (nm, lk, c.name(), c.text) for c in le) + "\n"))
     for off, txt in sorted(ins, key=lambda x: -x[0]):
         body = body[:off] + txt + body[off:]
     return body
@@ -498,13 +504,9 @@ def emit_body(body, key, em):
         if m:
             em.add("        " + m.group(4), item=key, part="loop:%s/%s" % (loopn, m.group(2)), label=m.group(1) or None, origin=m.group(3))
             continue
-        m = re.match(r"\s*/\*@hint ([^*]+)\*/ (.*)$", line)
+        m = re.match(r"\s*/\*@hint ([^*|]+)\|([^*]*)\*/ (.*)$", line)
         if m:
-            em.add("    " + m.group(2), item=key, part="hint:" + m.group(1))
-            continue
-        m = re.match(r"\s*/\*@entry\*/ (.*)$", line)
-        if m:
-            em.add("    " + m.group(1), item=key, part="hint:entry")
+            em.add("    " + m.group(3), item=key, part="hint:" + m.group(1), label=m.group(2) or None)
             continue
         em.add(line, item=key, part="body")
 
@@ -566,6 +568,7 @@ def generate(unit_dir, features=("parallel", "shred-derive"), mode="T", active=N
             em.add(l, part="prelude", file=f, label=(c + ".trait") if c else None)
     cur_owner = None
     used = set()
+    missing_skipped = set()
     for it_spec in unit["items"]:
         if "cfg" in it_spec and not all((c in features) for c in it_spec["cfg"]):
             continue
@@ -588,6 +591,7 @@ def generate(unit_dir, features=("parallel", "shred-derive"), mode="T", active=N
         except Unsupported:
             fb = it_spec.get("fallback")
             if fb == "skip":
+                missing_skipped.add(it_spec["key"])
                 continue
             if not fb:
                 raise
@@ -614,7 +618,7 @@ def generate(unit_dir, features=("parallel", "shred-derive"), mode="T", active=N
         em.add("}", part="gen")
     skipped = set()
     skipped |= set(i["key"] for i in unit["items"] if "key" in i and "cfg" in i and not all((c in features) for c in i["cfg"]))
-    unused = set(contracts) - used - skipped
+    unused = set(contracts) - used - skipped - missing_skipped
     if unused:
         raise Unsupported("contracts without item: %s" % sorted(unused))
     for f in unit.get("lib", []):
